@@ -6,6 +6,7 @@
 //	c05 onew / seqw                       like one / seq, but every argument buffer is a window frame[off:off+n]
 //	                                      of a larger array with non-zero guard bytes around and spare capacity
 //	                                      behind; the whole arrays are compared after each call
+//	c05 scan <repo root>                  static scan: every call site of the IGE loops passes a fresh output buffer
 //	c05 seq <file>                        run the calls listed in <file> (kind a1..a5 per line) one after the
 //	                                      other in this process, REUSING the same key / iv / input / output /
 //	                                      message buffers and big.Int objects (values written in place between
@@ -104,6 +105,53 @@ func refTempKeys(newNonce, serverNonce []byte) (key, iv []byte) {
 	return
 }
 
+// MTProto 1.0 message key schedule, written from the specification (x = 0 client->server, 8 server->client):
+//
+//	sha1_a = SHA1(msg_key + substr(auth_key, x, 32))
+//	sha1_b = SHA1(substr(auth_key, 32+x, 16) + msg_key + substr(auth_key, 48+x, 16))
+//	sha1_c = SHA1(substr(auth_key, 64+x, 32) + msg_key)
+//	sha1_d = SHA1(msg_key + substr(auth_key, 96+x, 32))
+//	aes_key = substr(sha1_a, 0, 8) + substr(sha1_b, 8, 12) + substr(sha1_c, 4, 12)
+//	aes_iv  = substr(sha1_a, 8, 12) + substr(sha1_b, 0, 8) + substr(sha1_c, 16, 4) + substr(sha1_d, 0, 8)
+func refAESIGE(msgKey, authKey []byte, decode bool) (key, iv []byte) {
+	x := 0
+	if decode {
+		x = 8
+	}
+	sub := func(b []byte, off, n int) []byte { return b[off : off+n] }
+	a := sha(msgKey, sub(authKey, x, 32))
+	b := sha(sub(authKey, 32+x, 16), msgKey, sub(authKey, 48+x, 16))
+	c := sha(sub(authKey, 64+x, 32), msgKey)
+	d := sha(msgKey, sub(authKey, 96+x, 32))
+	key = append(append(append([]byte{}, sub(a, 0, 8)...), sub(b, 8, 12)...), sub(c, 4, 12)...)
+	iv = append(append(append(append([]byte{}, sub(a, 8, 12)...), sub(b, 0, 8)...), sub(c, 16, 4)...), sub(d, 0, 8)...)
+	return
+}
+
+// msg_key = substr(SHA1(plaintext), 4, 16)
+func refMsgKey(msg []byte) []byte { return sha(msg)[4:20] }
+
+// what TryDecryptMessageWithTempKeys must do with ANY ciphertext, from the specification: ok + payload iff the
+// length is a positive multiple of 16, at least 20, and SHA1 of the body with 0..15 trailing bytes removed
+// (fewest first) equals the first 20 decrypted bytes; an error otherwise; never a panic.
+func refTryDecrypt(ct, newNonce, serverNonce []byte) (payload []byte, ok bool) {
+	if len(ct) == 0 || len(ct)%16 != 0 {
+		return nil, false
+	}
+	key, iv := refTempKeys(newNonce, serverNonce)
+	pt := refIGE(key, iv, ct, true)
+	if len(pt) < 20 {
+		return nil, false
+	}
+	body := pt[20:]
+	for cut := 0; cut <= 15 && cut <= len(body); cut++ {
+		if bytes.Equal(sha(body[:len(body)-cut]), pt[:20]) {
+			return body[:len(body)-cut], true
+		}
+	}
+	return nil, false
+}
+
 // what a conformant peer sends for payload and padding
 func peerEncrypt(payload, pad, newNonce, serverNonce []byte) []byte {
 	key, iv := refTempKeys(newNonce, serverNonce)
@@ -129,11 +177,26 @@ func (r res) fields() []string {
 
 // session = the argument buffers of one call sequence. nil means: allocate fresh arguments for every call.
 type session struct {
-	bufs    map[string][]byte
-	ints    map[string]*big.Int
-	framed  bool              // hand out windows frame[pre:pre+n] of larger arrays with guard bytes around
-	frames  map[string]*frame // framed: role/len -> frame
-	oneShot bool              // not a sequence: buffers are not reused (fresh frames per role)
+	bufs   map[string][]byte
+	handed []handout         // plain buffers handed out for the current call
+	nums   []*numrec         // big.Int objects of the caller (kept across the calls of a sequence)
+	framed bool              // hand out windows frame[pre:pre+n] of larger arrays with guard bytes around
+	frames map[string]*frame // framed: role/len -> frame
+}
+
+type handout struct {
+	role string
+	b    []byte
+	snap []byte
+}
+
+// numrec = a *big.Int of the caller: the object, the value it must still have, and its word array
+type numrec struct {
+	role string
+	n    *big.Int
+	raw  []byte
+	bits []big.Word
+	used bool // handed to the package in the current call
 }
 
 // frame = a larger live buffer of the caller of which the package only gets a window
@@ -151,7 +214,7 @@ const (
 )
 
 func newSession() *session {
-	return &session{bufs: map[string][]byte{}, ints: map[string]*big.Int{}, frames: map[string]*frame{}}
+	return &session{bufs: map[string][]byte{}, frames: map[string]*frame{}}
 }
 
 func newFramedSession() *session {
@@ -192,13 +255,38 @@ func (s *session) buf(role string, val []byte) []byte {
 		s.bufs[k] = b
 	}
 	copy(b, val)
+	s.handed = append(s.handed, handout{role, b, append([]byte{}, val...)})
 	return b
 }
 
 // guards reports the first byte of any caller array that the package changed although it does not belong
 // to a documented output: everything outside the window, and for every role but "out" the window too.
 func (s *session) guards() string {
-	if s == nil || !s.framed {
+	if s == nil {
+		return ""
+	}
+	// the *big.Int arguments: same value and same words as before the call (all objects of the sequence)
+	for _, r := range s.nums {
+		want := new(big.Int).SetBytes(r.raw)
+		if r.n.Cmp(want) != 0 {
+			return fmt.Sprintf("the caller's *big.Int passed as %q was modified in place: value was %x, is %x after the call", r.role, want, r.n)
+		}
+		if w := r.n.Bits(); len(w) != len(r.bits) {
+			return fmt.Sprintf("the caller's *big.Int passed as %q was modified in place: %d words before, %d after the call", r.role, len(r.bits), len(w))
+		} else {
+			for i := range w {
+				if w[i] != r.bits[i] {
+					return fmt.Sprintf("the caller's *big.Int passed as %q was modified in place: word %d changed", r.role, i)
+				}
+			}
+		}
+	}
+	for _, h := range s.handed {
+		if h.role != "out" && !bytes.Equal(h.b, h.snap) {
+			return fmt.Sprintf("the caller's %d-byte buffer passed as %q was modified", len(h.snap), h.role)
+		}
+	}
+	if !s.framed {
 		return ""
 	}
 	keys := make([]string, 0, len(s.frames))
@@ -228,17 +316,24 @@ func (s *session) guards() string {
 	return ""
 }
 
-// num returns a big.Int with the value of raw; in a session the same object is re-set in place.
+// num returns the caller's *big.Int for a role. In a sequence it is the SAME object in every call; it is set
+// (in place, SetBytes) only when the value differs from the one it already holds, so that a package which
+// changed it during an earlier call is also seen through the results of the later calls. After every call
+// value and word array of every object are compared with what the caller put there (guards).
 func (s *session) num(role string, raw []byte) *big.Int {
-	if s == nil {
-		return new(big.Int).SetBytes(raw)
+	for _, r := range s.nums {
+		if r.role == role {
+			if !bytes.Equal(r.raw, raw) {
+				r.n.SetBytes(raw)
+				r.raw = append([]byte{}, raw...)
+				r.bits = append([]big.Word{}, r.n.Bits()...)
+			}
+			return r.n
+		}
 	}
-	n, ok := s.ints[role]
-	if !ok {
-		n = new(big.Int)
-		s.ints[role] = n
-	}
-	return n.SetBytes(raw)
+	n := new(big.Int).SetBytes(raw)
+	s.nums = append(s.nums, &numrec{role: role, n: n, raw: append([]byte{}, raw...), bits: append([]big.Word{}, n.Bits()...)})
+	return n
 }
 
 func classify(f func() ([]byte, []byte, error)) res {
@@ -257,6 +352,10 @@ func classify(f func() ([]byte, []byte, error)) res {
 
 // runCase runs the implementation; returns result, direct verdict, detail
 func runCase(kind string, a [5]string, ss *session) (res, string, string) {
+	if ss == nil {
+		ss = newSession() // fresh arguments for this call only
+	}
+	ss.handed = ss.handed[:0]
 	r, direct, detail := runCase0(kind, a, ss)
 	if g := ss.guards(); g != "" && direct != "fail" {
 		return r, "fail", g
@@ -396,12 +495,44 @@ func runCase0(kind string, a [5]string, ss *session) (res, string, string) {
 			return r, "pass", ""
 		}
 		return r, "none", ""
+	case "trydec", "trydecbig":
+		// the production entry (handshake.go, on bytes from the network): must never panic, whatever it is given
+		n1, n2, ct := vc.UnHex(a[0]), vc.UnHex(a[1]), vc.UnHex(a[2])
+		r := classify(func() ([]byte, []byte, error) {
+			m, err := ige.TryDecryptMessageWithTempKeys(ss.buf("ct", ct), ss.num("n1", n1), ss.num("n2", n2))
+			return m, nil, err
+		})
+		if r.class == "panic" {
+			return r, "fail", "TryDecryptMessageWithTempKeys panicked; malformed input must be an error return (" + a[3] + ")"
+		}
+		if len(n1) == 32 && len(n2) == 16 {
+			want, ok := refTryDecrypt(ct, n1, n2)
+			if ok && (r.class != "ok" || !bytes.Equal(r.r1, want)) {
+				return r, "fail", "expected ok " + vc.Hex(want) + " (SHA-1 prefix matches after removing 0..15 bytes; " + a[3] + ")"
+			}
+			if !ok && r.class != "err" {
+				return r, "fail", "expected an error return: bad length or no cut of 0..15 bytes matches the SHA-1 prefix (" + a[3] + ")"
+			}
+			return r, "pass", ""
+		}
+		return r, "none", ""
 	case "aesige":
 		mk, ak := vc.UnHex(a[0]), vc.UnHex(a[1])
 		r := classify(func() ([]byte, []byte, error) {
 			k, iv := ige.VerifGenerateAESIGE(ss.buf("mkey", mk), ss.buf("akey", ak), a[2] == "1")
 			return k, iv, nil
 		})
+		need := 128
+		if a[2] == "1" {
+			need = 136
+		}
+		if len(ak) >= need {
+			k, iv := refAESIGE(mk, ak, a[2] == "1")
+			if r.class != "ok" || !bytes.Equal(r.r1, k) || !bytes.Equal(r.r2, iv) {
+				return r, "fail", "expected ok key=" + vc.Hex(k) + " iv=" + vc.Hex(iv) + " (MTProto 1.0 key schedule)"
+			}
+			return r, "pass", ""
+		}
 		return r, "none", ""
 	case "msgenc":
 		msg, key := vc.UnHex(a[0]), vc.UnHex(a[1])
@@ -417,7 +548,7 @@ func runCase0(kind string, a [5]string, ss *session) (res, string, string) {
 				}
 				return r, "pass", ""
 			}
-			k, iv := ige.VerifGenerateAESIGE(ige.MessageKey(msg), key, false)
+			k, iv := refAESIGE(refMsgKey(msg), key, false) // independent of the package's own derivation
 			padded := append(append([]byte{}, msg...), make([]byte, (16-len(msg)%16)%16)...)
 			want := refIGE(k, iv, padded, false)
 			if r.class != "ok" || !bytes.Equal(r.r1, want) {
@@ -440,7 +571,7 @@ func runCase0(kind string, a [5]string, ss *session) (res, string, string) {
 				}
 				return r, "pass", ""
 			}
-			k, iv := ige.VerifGenerateAESIGE(cd, key, true)
+			k, iv := refAESIGE(cd, key, true) // independent of the package's own derivation
 			want := refIGE(k, iv, ct, true)
 			if r.class != "ok" || !bytes.Equal(r.r1, want) {
 				return r, "fail", "expected ok " + vc.Hex(want)
@@ -561,6 +692,9 @@ func main() {
 		r, direct, detail := runCase(os.Args[2], f, one)
 		fmt.Println(strings.Join(append(r.fields(), direct, detail), "\t"))
 		return
+	}
+	if len(os.Args) == 3 && os.Args[1] == "scan" {
+		os.Exit(scanAlias(os.Args[2]))
 	}
 	if len(os.Args) == 3 && (os.Args[1] == "seq" || os.Args[1] == "seqw") {
 		data, err := os.ReadFile(os.Args[2])
@@ -812,6 +946,77 @@ func main() {
 		g.add("msgenc", "68656c6c6f20776f726c6421", vc.Hex(key))
 	}
 
+	// --- TryDecryptMessageWithTempKeys (the handshake's entry for bytes from the network): anything goes in ---
+	{
+		r := rng.Fork(8)
+		H := vc.Hex
+		n1, n2 := nonce(r, 32, 0), nonce(r, 16, 0)
+		key, iv := refTempKeys(n1, n2)
+		for n := 0; n <= 40; n++ {
+			payload := r.Bytes(n)
+			pl := (16 - (20+n)%16) % 16
+			g.add2("trydec", H(n1), H(n2), H(peerEncrypt(payload, r.Bytes(pl), n1, n2)), fmt.Sprintf("valid peer ciphertext, payload %d bytes, padding %d", n, pl))
+		}
+		for n := 0; n <= 48; n++ {
+			g.add("trydec", H(n1), H(n2), H(r.Bytes(n)), fmt.Sprintf("%d random bytes", n))
+			if n%8 == 0 {
+				g.add2("trydec", H(n1), H(n2), H(make([]byte, n)), fmt.Sprintf("%d zero bytes", n))
+			}
+		}
+		valid := peerEncrypt(r.Bytes(30), r.Bytes(14), n1, n2) // 64 bytes
+		for k := 0; k < len(valid); k++ {
+			g.add("trydec", H(n1), H(n2), H(valid[:k]), fmt.Sprintf("valid 64-byte ciphertext truncated to %d bytes", k))
+		}
+		for _, n := range []int{0, 1, 12, 13, 28} {
+			payload := r.Bytes(n)
+			pl := (16 - (20+n)%16) % 16
+			good := append(append(sha(payload), payload...), r.Bytes(pl)...)
+			for _, j := range []int{0, 7, 19} { // SHA-1 prefix damaged
+				pt := append([]byte{}, good...)
+				pt[j] ^= 0x40
+				g.add("trydec", H(n1), H(n2), H(refIGE(key, iv, pt, false)), fmt.Sprintf("payload %d bytes, byte %d of the SHA-1 prefix damaged", n, j))
+			}
+			if n > 0 { // body damaged, prefix intact
+				pt := append([]byte{}, good...)
+				pt[20] ^= 1
+				g.add("trydec", H(n1), H(n2), H(refIGE(key, iv, pt, false)), fmt.Sprintf("payload %d bytes, first payload byte damaged", n))
+			}
+			// one ciphertext bit flipped
+			ct := refIGE(key, iv, good, false)
+			ct[len(ct)/2] ^= 0x10
+			g.add("trydec", H(n1), H(n2), H(ct), "one bit of a valid ciphertext flipped")
+		}
+		// hash matches only after removing 16 or more bytes: not a conformant padding -> error
+		{
+			payload := r.Bytes(12)
+			pt := append(append(sha(payload), payload...), r.Bytes(16)...)
+			g.add("trydec", H(n1), H(n2), H(refIGE(key, iv, pt, false)), "SHA-1 prefix matches only with 16 trailing bytes removed")
+			pt = append(pt, r.Bytes(16)...)
+			g.add("trydec", H(n1), H(n2), H(refIGE(key, iv, pt, false)), "SHA-1 prefix matches only with 32 trailing bytes removed")
+		}
+		for _, n := range []int{16, 1024, 2048, 4096} {
+			g.add("trydec", H(n1), H(n2), H(make([]byte, n)), fmt.Sprintf("%d zero bytes", n))
+		}
+		// the same with nonces that have leading zeros, are zero, or do not fit
+		for _, nn := range [][2][]byte{{nonce(r, 32, 1), nonce(r, 16, 2)}, {nonce(r, 32, 29), nonce(r, 16, 0)}, {make([]byte, 32), make([]byte, 16)}, {nonce(r, 33, 0), nonce(r, 20, 0)}} {
+			for _, n := range []int{0, 5, 16, 32, 33, 48} {
+				g.add("trydec", H(nn[0]), H(nn[1]), H(r.Bytes(n)), fmt.Sprintf("%d random bytes", n))
+			}
+			if len(nn[0]) == 32 && len(nn[1]) == 16 {
+				p := r.Bytes(17)
+				g.add("trydec", H(nn[0]), H(nn[1]), H(peerEncrypt(p, r.Bytes(11), nn[0], nn[1])), "valid peer ciphertext, payload 17 bytes, padding 11")
+			}
+		}
+		// 64 KiB of garbage (the extracted model of the loops is quadratic in the length: textbook oracle only)
+		g.add("trydecbig", H(n1), H(n2), H(r.Bytes(65536)), "64 KiB of random bytes")
+		g.add("trydecbig", H(n1), H(n2), H(r.Bytes(65536+7)), "64 KiB + 7 random bytes")
+		if thorough {
+			for i := 0; i < 400; i++ {
+				g.add("trydec", H(nonce(r, 32, lz2[r.Intn(4)])), H(nonce(r, 16, lzs[r.Intn(4)])), H(r.Bytes(r.Intn(130))), "random bytes")
+			}
+		}
+	}
+
 	// --- call sequences in ONE process reusing the same argument buffers, overwritten in place ---
 	{
 		r := rng.Fork(7)
@@ -894,6 +1099,8 @@ func main() {
 				pl := (16 - (20+len(payload))%16) % 16
 				g.step("dec", H(p.n), H(p.s), H(peerEncrypt(payload, r.Bytes(pl), p.n, p.s)), H(payload), itoa(pl))
 				g.step("encraw", H(p.n), H(p.s), H(r.Bytes(32)))
+				g.step("trydec", H(p.n), H(p.s), H(peerEncrypt(payload, r.Bytes(pl), p.n, p.s)), "valid peer ciphertext")
+				g.step("trydec", H(p.n), H(p.s), H(r.Bytes(16*(i%3))), "garbage")
 				ak := ak1
 				if i%2 == 1 {
 					ak = ak2
@@ -935,7 +1142,11 @@ func main() {
 						g.step("dec", H(n), H(s), H(peerEncrypt(payload, r.Bytes(pl), n, s)), H(payload), itoa(pl))
 					}
 				case 6:
-					g.step("tk", H(ns[r.Intn(3)]), H(sv[r.Intn(2)]))
+					if r.Bool() {
+						g.step("tk", H(ns[r.Intn(3)]), H(sv[r.Intn(2)]))
+					} else {
+						g.step("trydec", H(ns[r.Intn(3)]), H(sv[r.Intn(2)]), H(r.Bytes(8*r.Intn(9))), "random bytes")
+					}
 				default:
 					if r.Bool() {
 						g.step("msgenc", H(r.Bytes(1+r.Intn(50))), H(aks[r.Intn(2)]))
